@@ -59,3 +59,14 @@ package cache
 //@   atomic [removes-expired] old(present(c.Map.data, key)) && old(c.Map.data[key]) == value && expiredAt(old(atomicLoad(c.Map.data[key].ValidUntil)), now) ==> mapIsDelete(c.Map.data, key)
 //@   ensures [sweeps-on] cont
 //@   ensures [expiry-callback-iff-expired] called(onExpire) <==> expiredAt(old(atomicLoad(value.ValidUntil)), now)
+//
+// Constructors: a new element carries exactly the data, deadline and expiry callback it was given
+// (a nil callback becomes some non-nil do-nothing function); a new cache owns a fresh, non-nil map.
+//
+//@ func NewElement(data D, validUntil time.Time, onExpire func(d D)) (e *Element)
+//@   ensures [fresh] e != nil && fresh(e)
+//@   ensures [carries] e.data == data && atomicLoad(e.ValidUntil) == validUntil
+//@   ensures [callback] e.onExpire != nil && (onExpire != nil ==> e.onExpire == onExpire)
+//
+//@ func NewCache() (c *Cache)
+//@   ensures [fresh] c != nil && fresh(c) && c.Map != nil && fresh(c.Map)
